@@ -158,14 +158,23 @@ theorem metaDone_sinv {s : St} (h : SInv s) (hp : Live s) (cfg : Cfg) (r : Res) 
       · unfold prepare
         have w0 := winv_upd h.toWInv hp s.rejoinD s.jpc s.prep true s.now
         split
+        · exact sinv_mk (winv_upd h.toWInv hp s.rejoinD .hang s.prep true s.now) hp (by simp [hrd]) (fun _ => hnd)
+            h.stable_hb (by simp [midJoin]) h.hb_has
+        split
         · rename_i he
           have hn : NoHeld { s with coordBroker := true } := (heldCids_isEmpty _).mp he
           exact afterPrepare_sinv (s := { s with coordBroker := true }) w0 hp hn hrd hnd h.stable_hb h.hb_has
         · have b := beginDrain_winv w0
-          show SInv { (beginDrain { s with coordBroker := true }).1 with jpc := .prepare, prep := (beginDrain { s with coordBroker := true }).2.2 }
           have hp1 : Live (beginDrain { s with coordBroker := true }).1 := hp
-          exact sinv_mk (winv_upd b.1 hp1 s.rejoinD .prepare _ true s.now) hp (by simp [hrd]) (fun _ => hnd)
-            h.stable_hb (fun _ => b.2) h.hb_has
+          simp only []
+          split
+          · simp only [andThen_fst]
+            obtain ⟨c1, c2, c3, c4, c5, c6, c7⟩ := drainDone_ctl (beginDrain { s with coordBroker := true }).1
+              (beginDrain { s with coordBroker := true }).2.2 (!drainFails { s with coordBroker := true })
+            refine afterPrepare_sinv (drainDone_winv b.1 _ _) (by unfold Live; rw [c3, c4]; exact hp) (drainDone_noheld b.2 _ _)
+              (by rw [c2]; exact hrd) (by rw [c5, c3]; exact hnd) (by rw [c5, c3, c6]; exact h.stable_hb) (by rw [c6, c7]; exact h.hb_has)
+          · exact sinv_mk (winv_upd b.1 hp1 s.rejoinD .prepare _ true s.now) hp (by simp [hrd]) (fun _ => hnd)
+              h.stable_hb (fun _ => b.2) h.hb_has
 
 /-- member id / generation may change while no consumer is held -/
 theorem winv_member {s : St} (h : WInv s) (hn : NoHeld s) (m : Nat) (g : Option Int) : WInv { s with member := m, gen := g } := by
@@ -493,6 +502,17 @@ theorem consumerErr_sinv {s : St} (h : SInv s) (hp : Live s) (cfg : Cfg) (cid : 
       exact sinv_after_err_gen r hp h1.rd_jpc h1.jpc_needed h1.mid_noheld
   · exact h
 
+theorem consumerQuirk_sinv {s : St} (h : SInv s) (hp : Live s) (cfg : Cfg) (cid : Nat) (q : Quirk) :
+    SInv (step cfg s (.consumerQuirk cid q)).1 := by
+  simp only [step]
+  split
+  · let f : Con → Con := fun c => if c.cid = cid && c.phase == .running then { c with quirk := q } else c
+    have hf : ∀ c, (f c).held = c.held ∧ ((f c).phase = .running ↔ c.phase = .running) ∧ (f c).gen = c.gen ∧
+        (f c).member = c.member ∧ (f c).topic = c.topic ∧ (f c).part = c.part := by
+      intro c; simp only [f]; split <;> simp
+    exact sinv_cons h hp _ (winv_cons_map h.toWInv f hf) (noheld_cons_map f (fun c => (hf c).1))
+  · exact h
+
 theorem stopCons_sinv {s : St} (h : SInv s) (hp : Live s) (cids : List Nat) : SInv (stopCons s cids).1 :=
   sinv_mk (stopCons_winv h.toWInv cids) hp h.rd_jpc h.jpc_needed h.stable_hb (fun x => stopCons_noheld (h.mid_noheld x) _) h.hb_has
 
@@ -501,13 +521,6 @@ theorem drainDone_sinv {s : St} (h : SInv s) (hp : Live s) (d : Drain) (ok : Boo
   split
   · exact h
   · exact stopCons_sinv h hp _
-
-theorem drainDone_ctl (s : St) (d : Drain) (ok : Bool) :
-    (drainDone s d ok).1.jpc = s.jpc ∧ (drainDone s d ok).1.rejoinD = s.rejoinD ∧ (drainDone s d ok).1.stopping = s.stopping ∧
-    (drainDone s d ok).1.started = s.started ∧ (drainDone s d ok).1.rejoinNeeded = s.rejoinNeeded ∧
-    (drainDone s d ok).1.hbRunning = s.hbRunning ∧ (drainDone s d ok).1.timers = s.timers := by
-  unfold drainDone
-  split <;> simp
 
 /-- after `ConsumerGroup.stop` ran on a consistent state -/
 theorem sinv_after_call {s0 s1 : St} (r : CallRes s0 s1) (h0 : SInv s0) (hp : Live s0) : SInv s1 := by
@@ -591,7 +604,7 @@ theorem consumerDown_sinv {s : St} (h : SInv s) (hp : Live s) (cfg : Cfg) (cid :
             { co.drain with pending := co.drain.pending.filter (· != cid) } ok
           have hp3 : Live (drainDone { s with cons := s.cons.map f, stops := s.stops.filter fun (c : StopCo) => !c.drain.pending.contains cid }
             { co.drain with pending := co.drain.pending.filter (· != cid) } ok).1 := by unfold Live; rw [c3, c4]; exact hp
-          exact sinv_after_call (stopCall_res h3.toWInv cfg co.err co.user (rd_idle h3) h3.hb_has) h3 hp3
+          exact sinv_after_call (stopLoop_res h3.toWInv cfg co.err co.user (rd_idle h3) h3.hb_has) h3 hp3
     · exact h1
 
 theorem consumerDownEv_sinv {s : St} (h : SInv s) (hp : Live s) (cfg : Cfg) (cid : Nat) (ok : Bool) :
@@ -629,8 +642,7 @@ theorem winv_fire {s : St} (h : WInv s) (hp : Live s) (id : Nat) :
   · exact h.start_res
   · intro a b; rcases hp with x | x <;> simp_all
 
-theorem winv_addHb {s : St} (h : WInv s) (cfg : Cfg) (hr : s.hbRunning = true) : WInv (hbSchedule cfg s).1 := by
-  unfold hbSchedule
+theorem winv_addHb {s : St} (h : WInv s) (d : Rat) (hr : s.hbRunning = true) : WInv (addTimer s .hb d).1 := by
   constructor <;> simp only [addTimer_timers, addTimer_nextTimer, addTimer_stopping, addTimer_hbRunning, addTimer_cons,
       addTimer_gen, addTimer_member, addTimer_asg, addTimer_leaveWait, addTimer_started, addTimer_startResult,
       addTimer_rejoinD, addTimer_jpc, addTimer_rejoinNeeded, addTimer_rejoinWaitDc]
@@ -652,10 +664,10 @@ theorem winv_addHb {s : St} (h : WInv s) (cfg : Cfg) (hr : s.hbRunning = true) :
   · exact h.pristine
 
 /-- the heartbeat looper's tick: the call is consumed, `_heartbeat()` runs, the looper reschedules -/
-theorem hbTick_sinv {s : St} (h : SInv s) (hp : Live s) (cfg : Cfg) (id : Nat)
+theorem hbTick_sinv {s : St} (h : SInv s) (hp : Live s) (d : Rat) (id : Nat)
     (keep : ∀ t' ∈ s.timers, t'.kind ≠ .hb → t' ∈ s.timers.filter (·.id != id)) (hf : Bool)
     (hhf : hf = true → s.hbRunning = true) :
-    SInv (if s.hbRunning then hbSchedule cfg { s with timers := s.timers.filter (·.id != id), hbInFlight := hf }
+    SInv (if s.hbRunning then addTimer { s with timers := s.timers.filter (·.id != id), hbInFlight := hf } .hb d
           else ({ s with timers := s.timers.filter (·.id != id), hbInFlight := hf }, [])).1 := by
   have hw := h.toWInv
   have w1 : WInv { s with timers := s.timers.filter (·.id != id), hbInFlight := hf } := by
@@ -679,15 +691,18 @@ theorem hbTick_sinv {s : St} (h : SInv s) (hp : Live s) (cfg : Cfg) (id : Nat)
     · exact hw.pristine
   split
   · rename_i hr
-    have w2 := winv_addHb w1 cfg hr
+    have w2 := winv_addHb w1 d hr
     refine sinv_mk w2 hp h.rd_jpc h.jpc_needed h.stable_hb h.mid_noheld ?_
     intro _
     exact ⟨_, List.mem_append_right _ (List.mem_singleton.mpr rfl), rfl⟩
   · rename_i hr
     exact sinv_mk w1 hp h.rd_jpc h.jpc_needed h.stable_hb h.mid_noheld (fun x => absurd x hr)
 
-theorem fire_sinv {s : St} (h : SInv s) (hp : Live s) (cfg : Cfg) (id : Nat) : SInv (step cfg s (.fire id)).1 := by
+theorem fire_sinv {s : St} (h : SInv s) (hp : Live s) (cfg : Cfg) (id : Nat) (hbNext : Option Rat) :
+    SInv (step cfg s (.fire id hbNext)).1 := by
   simp only [step]
+  split
+  · exact h
   split
   · exact h
   · rename_i t rest hf
@@ -732,8 +747,8 @@ theorem fire_sinv {s : St} (h : SInv s) (hp : Live s) (cfg : Cfg) (id : Nat) : S
           · exact absurd hk ((h.hb_timer hr).1 t htm.1)
           · rfl
         split
-        · exact hbTick_sinv h hp cfg id keep' s.hbInFlight (hrun _)
-        · exact hbTick_sinv h hp cfg id keep' true (hrun _)
+        · exact hbTick_sinv h hp _ id keep' s.hbInFlight (hrun _)
+        · exact hbTick_sinv h hp _ id keep' true (hrun _)
 
 theorem advance_sinv {s : St} (h : SInv s) (cfg : Cfg) (dt : Rat) : SInv (step cfg s (.advance dt)).1 := by
   simp only [step]
@@ -777,8 +792,7 @@ theorem pristine_step {s : St} (h : SInv s) (h1 : s.started = false) (h2 : s.sto
   | start => exact absurd rfl he
   | advance dt => exact absurd rfl (ha dt)
   | stop =>
-    simp only [step, stopCall, heldCids, c, List.filter_nil, List.map_nil, List.isEmpty_nil, if_true, coordStop, h1]
-    simp
+    simp [step, stopCall, stopLoop, heldCids, c, coordStop, h1]
   | coordDone r => simp [step, j]
   | metaDone r => simp [step, j]
   | joinDone r => simp [step, j]
@@ -788,7 +802,8 @@ theorem pristine_step {s : St} (h : SInv s) (h1 : s.started = false) (h2 : s.sto
   | leaveDone r => simp [step, l]
   | consumerDown cid ok => simp [step, c]
   | consumerErr cid e => simp [step, c]
-  | fire id => simp [step, t]
+  | consumerQuirk cid q => simp [step, c]
+  | fire id hbNext => simp only [step, t, List.filter_nil]; split <;> rfl
 
 theorem step_sinv {s : St} (h : SInv s) (cfg : Cfg) (e : Ev) : SInv (step cfg s e).1 := by
   by_cases hp : Live s
@@ -804,7 +819,8 @@ theorem step_sinv {s : St} (h : SInv s) (cfg : Cfg) (e : Ev) : SInv (step cfg s 
     | leaveDone r => exact leaveDone_sinv h cfg r
     | consumerDown cid ok => exact consumerDownEv_sinv h hp cfg cid ok
     | consumerErr cid e => exact consumerErr_sinv h hp cfg cid e
-    | fire id => exact fire_sinv h hp cfg id
+    | consumerQuirk cid q => exact consumerQuirk_sinv h hp cfg cid q
+    | fire id hbNext => exact fire_sinv h hp cfg id hbNext
     | advance dt => exact advance_sinv h cfg dt
   · have h1 : s.started = false := by unfold Live at hp; cases hs : s.started <;> simp_all
     have h2 : s.stopping = false := by unfold Live at hp; cases hs : s.stopping <;> simp_all
